@@ -1,9 +1,9 @@
 #!/bin/sh
 # tools/seedimport.sh Cxx "<pytest paths>"  — import /tmp/mut_cxx_out/<i> as seeded/Cxx-m<i>, verify, run the check
-P="$1"; TESTS="$2"; low=$(echo "$P" | tr 'A-Z' 'a-z')
+P="$1"; TESTS="$2"; PFX="${3:-mut}"; TAG="${4:-m}"; low=$(echo "$P" | tr 'A-Z' 'a-z')
 cd "$(dirname "$0")/.."
-for d in /tmp/mut_${low}_out/[0-9]*; do
-  i=$(basename "$d"); id="$P-m$i"; mkdir -p "seeded/$id"
+for d in /tmp/${PFX}_${low}_out/[0-9]*; do
+  i=$(basename "$d"); id="$P-$TAG$i"; mkdir -p "seeded/$id"
   cp "$d/patch.diff" "$d/demo.py" "seeded/$id/"; cp "$d/README.txt" "seeded/$id/README.txt" 2>/dev/null
   [ -f "seeded/$id/meta.json" ] || cat > "seeded/$id/meta.json" <<M
 {"id": "$id", "properties": ["$P"], "origin": "independent sub-agent given only the property record and a scratch worktree of /repo",
@@ -12,4 +12,4 @@ M
   tools/seedverify.py "$id" $TESTS | grep '"ok"'
   tools/seeded.py run "$id" --seeds 1,2,3
 done
-git -C /repo worktree remove --force /tmp/mut_${low} 2>/dev/null; git -C /repo branch -D mut/${low} -q 2>/dev/null; rm -rf /tmp/mut_${low}_out
+git -C /repo worktree remove --force /tmp/${PFX}_${low} 2>/dev/null; git -C /repo branch -D ${PFX}/${low} -q 2>/dev/null; rm -rf /tmp/${PFX}_${low}_out
